@@ -207,14 +207,30 @@ func (w *world) consistentTx(res *ctypes.ResultTx) (inc *inconsistency, relabell
 	if !ok {
 		return bad("height", "no block at height %d", res.Height), false
 	}
-	ti := -1
+	// the occurrences of the tx in that block (the same bytes may be included more than once); the answer talks about
+	// the one its Index names, else the one the proof names
+	var occ []int
 	for i, tx := range b.Txs {
 		if bytes.Equal(tx, res.Tx) {
+			occ = append(occ, i)
+		}
+	}
+	if len(occ) == 0 {
+		return bad("tx", "returned tx %q is not in block %d", res.Tx, res.Height), false
+	}
+	ti := -1
+	for _, i := range occ {
+		if i == int(res.Index) {
+			ti = i
+		}
+	}
+	for _, i := range occ {
+		if ti < 0 && int64(i) == res.Proof.Proof.Index {
 			ti = i
 		}
 	}
 	if ti < 0 {
-		return bad("tx", "returned tx %q is not in block %d", res.Tx, res.Height), false
+		ti = occ[len(occ)-1]
 	}
 	tx := []byte(b.Txs[ti])
 	if !bytes.Equal(res.Hash, sha(tx)) {
